@@ -2,7 +2,7 @@ ID = "C11"
 PROPS_FILE = "props/C11.v"
 COQ_TARGETS = ["props/C11.vo", "judge/J11.vo", "model/Pack.vo"]
 JUDGE = ("judge.J11", "J11.judge")
-JUDGE_IMPORTS = ("From NSQV Require Import model.Gate model.GateRe.",)
+JUDGE_IMPORTS = ("From NSQV Require Import model.Gate model.GateRe model.GateHttp.",)
 REPO_BINS = []
 RULE = ("real in-process nsqd per case (fresh data dir, the repository's test certificates, every combination of tls-required 0/tcp-https/required x certificate "
         "x client-cert policy ''/require/require-verify x 0/1/2 auth addresses x GET/POST) against a stub auth server serving a scripted answer stream "
@@ -10,30 +10,37 @@ RULE = ("real in-process nsqd per case (fresh data dir, the repository's test ce
         "raw TCP client, IDENTIFY tls_v1 upgrade done with crypto/tls presenting no / a self-signed / a CA-signed certificate or aborting; profiles: every command kind "
         "on a plaintext connection of a TLS-requiring daemon, every command kind before AUTH, handshake outcomes per policy, authorised connections with per-topic/channel "
         "grants and the cached answer's age moved in 10 s steps against TTLs of 10/20/30/3600 s (hook) plus six real 1 s-TTL cases with real waiting, two connections on "
-        "one daemon, random sequences incl. malformed command words; HTTP probes (ping/stats/create/pub/unknown route) on the plaintext and the TLS listener under each mode; "
-        "start-up of all 18 option combinations. A case is non-trivial when a command was executed with effect, answered by the TLS gate or by an auth denial; "
+        "one daemon, random sequences incl. malformed command words; every daemon with or without an --https-address (30 %) and an --http-address (10 %); "
+        "HTTP: every startable option combination (tls-required x certificate x client-cert policy, 10) x {both HTTP listeners, no HTTPS address, no HTTP address}: state seeded through the "
+        "in-process API, then one request of EVERY route of newHTTPServer (ping, info, stats, pub, mpub, topic and channel create/delete/empty/pause/unpause, config GET/PUT, the eleven /debug routes, "
+        "an unknown path, a wrong method; valid, invalid and missing names) on the plaintext listener, the same on the TLS listener, then the state-changing requests on the plaintext listener again, "
+        "topics / message counts / channels read (GetStats) after every request; random request sequences over the same configurations; "
+        "start-up of all 18 option combinations x 4 address settings with the listeners the daemon reports. A case is non-trivial when a command was executed with effect, answered by the TLS gate or by an auth denial; "
         "distinct = distinct recorded terms.")
 TRUSTED = [
     "modelled, not verified: crypto/tls (handshake completion per ClientAuth policy is the 3x3 table Gate.handshake_ok, validated by the driver), net/http and encoding/json of the auth query (an answer is AError or a decoded {ttl, authorizations}), regexp (Section variables re_match / re_ok in every theorem; the judge instantiates them with a Kernighan-Pike matcher over the dialect ^? (atom|atom*)* $? that the driver generates grants in)",
     "one clock reading per command: time.Now() inside QueryAuthd (Expires = now + ttl) and inside IsExpired are taken as the same instant of the command that triggers them",
     "hook /repo/nsqd/verif_c11.go (build tag verif): VerifShiftAuthExpiry moves a client's cached AuthState.Expires earlier (virtual time for the TTL), VerifClientGate reads a client's TLS flag / cache; the daemon's state is read with NSQD.GetStats (the function behind GET /stats)",
     "stub auth server and raw client: /verif/harness/cmd/authdrive/main.go",
+    "HTTP handlers past the 403 guard are modelled by status class and visible state only (GateHttp.http_step: 200/400/404/405, topics with message_count, channels); the in-process calls that seed state (GetTopic, GetChannel, PutMessage) are taken to be what /topic/create, /channel/create, /pub do",
 ]
 ASSUMPTIONS = [
     "commands other than NOP/RDY answer exactly one frame (IDENTIFY with tls_v1: two); the driver sends a NOP or RDY together with a barrier command (IDENTIFY {} in state init, FIN 0..0 after SUB) so that attribution needs no timing",
-    "not exercised by the driver (model only): snappy or deflate negotiated alone, a second tls_v1 IDENTIFY on an upgraded connection, FIN/REQ/TOUCH of a message actually in flight, E_PUB_FAILED/E_SUB_FAILED (topic or channel exiting, max-channel-consumers), auth-server timeouts, the 403->https retry of the auth client, ephemeral topics/channels",
+    "not exercised by the driver (model only): snappy or deflate negotiated alone, a second tls_v1 IDENTIFY on an upgraded connection, FIN/REQ/TOUCH of a message actually in flight, E_PUB_FAILED/E_SUB_FAILED (topic or channel exiting, max-channel-consumers), auth-server timeouts, the 403->https retry of the auth client, ephemeral topics/channels, HTTPS requests presenting no or a self-signed client certificate under a client-cert policy (the driver's HTTPS client always presents the CA-signed one), unix-socket HTTP addresses",
 ]
 LEVEL_TEXT = ("Machine-checked proof (Coq 8.16.1) over an executable command-level model of protocolV2.Exec / enforceTLSPolicy / IDENTIFY / AUTH / CheckAuth / SUB / PUB / MPUB / DPUB, "
               "clientV2.IsAuthorized / QueryAuthd / HasAuthorizations, auth.State.IsAllowed / IsExpired / QueryAnyAuthd (validation included), nsqd.New's TLS option normalisation, "
               "NSQD.Main's HTTP wiring and httpServer.ServeHTTP: for every command list, policy configuration, oracle stream of auth-server answers, clock and regexp semantics — "
               "(tls gate) with TLS required and no completed upgrade every non-IDENTIFY command gets the fatal E_INVALID, consumes and changes nothing and ends the connection, the TLS flag "
-              "is set only by a completed upgrade inside a tls_v1 IDENTIFY, plaintext HTTP is 403 iff tls-required=required; (auth gate) a topic/channel creation, enqueue or subscription "
+              "is set only by a completed upgrade inside a tls_v1 IDENTIFY, every plaintext HTTP request of every endpoint is answered 403 and changes no topic, message count or channel iff tls-required=required (a client-cert policy alone implies it), "
+              "whether or not the daemon has an HTTPS listener, and the TLS listener (there iff certificate and --https-address) never refuses; (auth gate) a topic/channel creation, enqueue or subscription "
               "happens only in a PUB/MPUB/DPUB/SUB that follows a successful AUTH and only if the answer in force (cached while unexpired, else the one fetched by this command's re-query, "
               "and always an answer this connection obtained from the auth server) grants that topic and channel; (decision) both directions with the documented codes: past the TLS gate and its own "
               "syntax checks such a command is refused with exactly E_AUTH_FIRST (no successful AUTH) / E_AUTH_FAILED (expired and the re-query fails) / E_UNAUTHORIZED (answer in force does not grant) "
               "and otherwise gets its normal answer and exactly its normal effects; (no trace) E_AUTH_FIRST / E_AUTH_FAILED / E_UNAUTHORIZED is the single, "
               "fatal answer of a command that changed nothing. Tied to the source by tables regenerated on every run (Exec dispatch rows vs the gate, enforceTLSPolicy's condition, "
-              "the single writer of client.TLS, the four handlers' event order with the guarded CheckAuth first, CheckAuth's fatal returns, newHTTPServer wiring, ServeHTTP's guard) "
+              "the single writer of client.TLS, the four handlers' event order with the guarded CheckAuth first, CheckAuth's fatal returns, newHTTPServer wiring, ServeHTTP's guard, "
+              "every write of httpListener / httpsListener with its condition in nsqd.New, the listener each server is served on) "
               "and by differential correspondence on a real nsqd with a scripted auth server.")
 LEVEL_NOTE = ("Trusted: Coq kernel + vm_compute; gotables (go/ast, syntactic); the hand-written model; the verif hook; crypto/tls, net/http, encoding/json, regexp are modelled "
               "(handshake outcome table, AError | AState, re_match/re_ok parameters). Partial: the TLS handshake itself and certificate verification are crypto/tls; regexp semantics "
